@@ -156,6 +156,12 @@ Definition lm (tol : Qc) (m : res (list Qc)) (o : obs (list Qc)) : bool := res_m
                 rng.shuffle(cand)
             c["fixed_indices"] = cand
             c["fixed_values"] = [x[i] for i in cand]
+            # the documented precedence: the finding strategy "is used only if fixed points are not specified", and the indices win over
+            # the abscissae when both are given — a caller may well pass them all (a wrapper forwarding its own keywords)
+            c["also_strategy"] = rng.random() < 0.5
+            if c["mode"] == "indices" and rng.random() < 0.4:
+                other = sorted(rng.sample(range(len(x)), min(len(x), rng.randint(2, 4))))
+                c["also_values"] = [x[i] for i in other]
         return c
 
     # ------------------------------------------------------------------ implementation
@@ -183,6 +189,10 @@ Definition lm (tol : Qc) (m : res (list Qc)) (o : obs (list Qc)) : bool := res_m
                         kw["fixed_points_indices_in_x"] = c["fixed_indices"]
                     else:
                         kw["fixed_points_finding_strategy"] = c["strategy"]
+                    if c["mode"] in ("values", "indices") and c.get("also_strategy"):
+                        kw["fixed_points_finding_strategy"] = c["strategy"]
+                    if c["mode"] == "indices" and c.get("also_values"):
+                        kw["fixed_points_in_x"] = c["also_values"]
                     r = M.integral_matching_reference_stretch(x, y, np.array(c["xr"], dtype=float), np.array(c["yr"], dtype=float),
                                                               target_function_integral_method=c["rt"], reference_function_integral_method=c["rr"],
                                                               alpha=c["alpha"], **kw)
